@@ -40,6 +40,10 @@ func (g *hasGen) genComments() {
 func (g *hasGen) generate() {
 	g.genComments()
 	g.P("func (x *", g.typeName, ") Has(fd ", protoreflectPkg.Ident("FieldDescriptor"), ") bool {")
+	// a nil receiver is the read-only empty message: read it as the zero value
+	g.P("if x == nil {")
+	g.P("x = new(", g.typeName, ")")
+	g.P("}")
 	g.P("switch fd.FullName() {")
 	for _, field := range g.message.Fields {
 		g.genField(field)
